@@ -40,8 +40,8 @@ def run(ctx):
         steps += o["steps"]
         for c in o["classes"]:
             res.distinct.add(c)
-        for sig, detail in o["findings"]:
-            res.findings.append(Finding(sig, detail, {"engine": "own"}))
+        for (sig, detail), rp in zip(o["findings"], o.get("replays") or [{}] * len(o["findings"])):
+            res.findings.append(Finding(sig, detail, {"engine": "own", "job": rp}))
         for s in o["samples"][:1]:
             res.add_sample(s)
         if o["inconclusive"]:
@@ -70,4 +70,20 @@ def run(ctx):
 
 
 def replay(ctx, path):
+    import json
+    with open(path) as f:
+        d = json.load(f)
+    rp = d.get("replay", {})
+    if rp.get("engine") == "own" and rp.get("job", {}).get("scripts"):
+        binary, hooks = ctx.binary()
+        j = rp["job"]
+        o = gate.OwnRun(binary, hooks, j.get("password", False), 1)
+        o.run([(tuple(j["scripts"]), tuple(j["schedule"]))])
+        for f_ in o.findings:
+            print("  ", f_)
+        if o.findings:
+            print("VIOLATION property=C02 replay=%s" % path)
+            return 1
+        print("interleaving conforms")
+        return 0
     return common.replay_e1(ctx, path)
